@@ -110,11 +110,16 @@ func (group *Group) StartRtpPub(req base.ApiCtrlStartRtpPubReq) (ret base.ApiCtr
 	}
 
 	pubSession := gb28181.NewPubSession().WithStreamName(req.StreamName).WithOnAvPacket(group.OnAvPacketFromPsPubSession)
-	pubSession.WithHookReadPacket(func(b []byte) {
-		if group.psPubDumpFile != nil {
-			group.psPubDumpFile.WriteWithType(b, base.DumpTypePsRtpData)
-		}
-	})
+	if req.DebugDumpPacket != "" {
+		// 注意，回调发生在session的读协程中，psPubDumpFile由group.mutex保护
+		pubSession.WithHookReadPacket(func(b []byte) {
+			group.mutex.Lock()
+			defer group.mutex.Unlock()
+			if group.psPubDumpFile != nil {
+				group.psPubDumpFile.WriteWithType(b, base.DumpTypePsRtpData)
+			}
+		})
+	}
 
 	Log.Debugf("[%s] [%s] add RTP PubSession into group.", group.UniqueKey, pubSession.UniqueKey())
 
